@@ -14,11 +14,17 @@ ops:  chunks k n                      → ok s₁ s₂ …          (batch sizes
       chainpwa-coded k tx ty MESH TGT Q  → the generic batching loop (first failing batch raises)
       chain k  m MEMBER…  Q           → ok rows…   MEMBER := A <mat> | D n d₁…d_n   (TransformChain / WithDims)
          MESH := <mat of source points> n_tris i j k …     TGT, Q := <mat>     <mat> := r c x₁₁ … (row major)
+
+The geometric ops (`chunks`, `iab`, `pwa`, `pip`, `chain`, `chainpwa-*`) execute the definitions of Core/C09Src.lean —
+the ones GenProps/C09Src.lean proves equal to the translation of the current source text and Props/C09Src.lean proves
+equal to the Core model — so the correspondence also exercises the translation vocabulary (`pyRange`, `pySlice`,
+`scatter`, `gather2`, the broadcasting products) against numpy.
 -/
 import MenpoModel.Core.Codec
 import MenpoModel.Core.C09
 import MenpoModel.Core.C09Pwa
 import MenpoModel.Core.C09Chain
+import MenpoModel.Core.C09Src
 
 namespace MenpoModel.Drive.C09
 open MenpoModel.Codec MenpoModel.C09
@@ -69,10 +75,25 @@ def Member.fn : Member → List PtN → List PtN
   | .aff m => List.map (affPt m)
   | .dims d => List.map (withDims d)
 
+/-- `WithDims._apply` as translated (a list of column numbers), as a member of a chain -/
+def Member.fnE : Member → List PtN → Except (List Bool) (List PtN)
+  | .aff m => liftOk (List.map (affPt m))
+  | .dims d => fun x => match withDimsSrc (.many d) x with
+    | .d2 r => .ok r
+    | .d1 _ => .ok []
+
+/-- `PiecewiseAffine._apply` as translated: `AbstractPWA._apply` over `PythonPWA.index_alpha_beta` -/
+def pwaApplyT (src tgt : List Tri) : List Pt → Except (List Bool) (List Pt) :=
+  pwaApplySrc (pythonIabSrc src) (tgt.map Tri.i) (tgt.map Tri.ij) (tgt.map Tri.ik)
+
+/-- `PiecewiseAffine.apply(x, batch_size=k)` as translated -/
+def pwaT (src tgt : List Tri) (k : Option Nat) (q : List Pt) : Except (List Bool) (List Pt) :=
+  pwaApplyBatchedSrc (pwaApplyT src tgt) k q
+
 def step (toks : List String) : String :=
   match toks with
   | ["chunks", k, n] => match k.toNat?, n.toNat? with
-    | some k, some n => "ok " ++ fmtNats ((batches k (List.range n)).map List.length)
+    | some k, some n => "ok " ++ fmtNats ((pyRange n k).map fun lo => (pySlice (List.range n) lo (lo + k)).length)
     | _, _ => "bad-op"
   | "pwab-fixed" :: rest => match runP (do let k ← pNat; let bs ← pList pBool; pure (k, bs)) rest with
     | some (k, bs) => fmtRes (batchedFixed pwaD k (bs.zipIdx.map fun (b, i) => (i, b)))
@@ -88,39 +109,36 @@ def step (toks : List String) : String :=
     | none => "bad-op"
   | "iab" :: rest =>
     match runP (do let sp ← pPts; let tl ← pList pTri; let q ← pPts; pure (sp, tl, q)) rest with
-    | some (sp, tl, q) => match indexAlphaBeta (mkTris sp tl) q with
-      | .ok iab => "ok " ++ " ".intercalate (iab.map fun t => toString t.1 ++ " " ++ fmtRat t.2.1 ++ " " ++ fmtRat t.2.2)
+    | some (sp, tl, q) => match pythonIabSrc (mkTris sp tl) q with
+      | .ok iab => "ok " ++ " ".intercalate ((iab.1.zip (iab.2.1.zip iab.2.2)).map fun t =>
+          toString t.1 ++ " " ++ fmtRat t.2.1 ++ " " ++ fmtRat t.2.2)
       | .error m => "err " ++ fmtBools m
     | none => "bad-op"
   | "pwa" :: rest =>
     match runP (do let k ← pBatch; let sp ← pPts; let tl ← pList pTri; let tp ← pPts; let q ← pPts
                    pure (k, sp, tl, tp, q)) rest with
-    | some (k, sp, tl, tp, q) => fmtPts (pwaApplyBatched (mkTris sp tl) (mkTris tp tl) k q)
+    | some (k, sp, tl, tp, q) => fmtPts (pwaT (mkTris sp tl) (mkTris tp tl) k q)
     | none => "bad-op"
   | "pip" :: rest =>
     match runP (do let k ← pBatch; let sp ← pPts; let tl ← pList pTri; let q ← pPts; pure (k, sp, tl, q)) rest with
-    | some (k, sp, tl, q) => "ok " ++ fmtBools (pointInPointcloud (mkTris sp tl) k q)
+    | some (k, sp, tl, q) => "ok " ++ fmtBools (pointInPointcloudSrc (fun a b => (a, b))
+        (fun t bs x => pwaT t.1 t.2 bs x) (mkTris sp tl) q k)
     | none => "bad-op"
   | op :: rest =>
     if op == "chainpwa-fixed" || op == "chainpwa-coded" then
       match runP (do let k ← pBatch; let tx ← pRat; let ty ← pRat; let sp ← pPts; let tl ← pList pTri
                      let tp ← pPts; let q ← pPts; pure (k, tx, ty, sp, tl, tp, q)) rest with
       | some (k, tx, ty, sp, tl, tp, q) =>
-        let d : Pwa Pt Pt := (toPwa (mkTris sp tl) (mkTris tp tl)).wrap (fun p => (p.1 + tx, p.2 + ty)) id
-        match k with
-        | none => fmtPts (d.apply q)
-        | some k =>
-          if q.length = 0 then fmtPts (d.apply q)
-          else if op == "chainpwa-fixed" then fmtPts (batchedFixed d k q) else fmtPts (applyBatchedE d.apply k q)
+        let ap : List Pt → Except (List Bool) (List Pt) :=
+          chainApplySrc [liftOk (List.map fun p => (p.1 + tx, p.2 + ty)), pwaApplyT (mkTris sp tl) (mkTris tp tl)]
+        if op == "chainpwa-fixed" then fmtPts (chainApplyBatchedSrc ap k q) else fmtPts (applyBatchedSrc ap k q)
       | none => "bad-op"
     else if op == "chain" then
       match runP (do let k ← pBatch; let ms ← pList pMember; let q ← pMat; pure (k, ms, q)) rest with
       | some (k, ms, q) =>
-        let f := chainApply (ms.map Member.fn)
-        let r := match k with
-          | none => f q
-          | some k => if q.length = 0 then f q else applyBatched f k q
-        "ok " ++ fmtMat r
+        match chainApplyBatchedSrc (chainApplySrc (ms.map Member.fnE)) k q with
+        | .ok r => "ok " ++ fmtMat r
+        | .error m => "err " ++ fmtBools m
       | none => "bad-op"
     else "bad-op"
   | _ => "bad-op"
